@@ -90,12 +90,14 @@ BUILT = {
             'boundaries, a stride sample and all strings of length <=2.',
             'Lone surrogates excluded; payload batches of 48 per probe, bisected on failure.',
             'DESIGN.md 3/C08'),
-    'C09': ('exhaustive single-edit mutation of a document corpus + line splices + broken-by-construction documents + hypothesis token soup; exception-type/position/rejection oracle',
+    'C09': ('exhaustive single-edit mutation of a document corpus + line splices + broken-by-construction documents + hypothesis token soup + atheris/libFuzzer campaigns; exception-type/position/rejection/termination oracle',
             'Every delete/insert/replace/truncate mutant (12 or 28 edit characters) and line-boundary splice of 16 (quick) / 64 '
             '(thorough) small well-formed documents, plus Hypothesis token soups, are parsed: only a list of Grid or a '
             'ZincParseException (ValueError) with an in-range or (0,0) position may come out; parse_scalar may raise only '
             'ValueError subclasses; a watchdog turns hangs into "inconclusive". ~100 kinds of documents broken by construction '
-            '(header, quotes, escapes, brackets, tag names, 3.0 constructs under 2.0) x filler values must be rejected.',
+            '(header, quotes, escapes, brackets, tag names incl. non-ASCII, 3.0 constructs under 2.0) x filler values must be rejected; a '
+            'document rejected with single=False must not yield a grid with single=True; coverage-guided atheris campaigns (seeded and '
+            'empty corpus) run the same oracle inside the fuzz target.',
             'str input only; bracket nesting <= 3; TAB-bearing texts are exempt from the column-range check while finding '
             'zinc.tab-position is open.',
             'DESIGN.md 3/C09'),
@@ -117,7 +119,7 @@ BUILT = {
             'header and an untouched source grid are compared with an evaluator written from the Haystack filter semantics.',
             'Semantics pinned in DESIGN.md Appendix C; ids are plain strings; Ref equality by name, display-less.',
             'DESIGN.md 3/C11'),
-    'C12': ('payload x slot x shape table + hypothesis fragment soup; canary objects, sys.addaudithook events and global-state snapshots as oracle',
+    'C12': ('payload x slot x shape table + hypothesis fragment soup + atheris/libFuzzer campaigns; canary objects, sys.addaudithook events and global-state snapshots as oracle',
             'About 200 payloads (canary calls, __import__/open/exec/eval/compile/getattr expressions, dunder and builtin names, '
             'quote/backquote/backslash/newline/#/; break-outs, format directives) are placed, escaped and raw, into 32 literal '
             'and identifier slots of the filter grammar inside 6 enclosing shapes and evaluated with grid.filter; no canary '
